@@ -1130,6 +1130,10 @@ impl<B: Cfg> DynFx for Fx<B> {
         for f in self.fx.enumerate(units) {
             let keep = match &f {
                 Fault::F2 { slot, .. } if Some(*slot) == k_slot => false,
+                // the compensated form (an unused operand cell of the defining ALU row absorbs
+                // the difference) is a property of the ALU AIR, enumerated by C04 on its own
+                // circuits in every tier; here only in the thorough tier
+                Fault::F2 { unit, .. } if *unit >= vpe3::faults::COMP && !full => false,
                 Fault::F4 { op, port, .. } if self.port_slot(*op, *port).map(|s| s.0) == k_slot && k_slot.is_some() => {
                     false
                 }
